@@ -27,7 +27,7 @@ def gen_dataset(rnd, buf):
     nid = 3
     base = [None, None]
     for t in range(rnd.choice([3, 4, 6])):
-        kind = rnd.choice(["in", "in", "in", "dangling", "out", "twin", "spanning"])
+        kind = rnd.choice(["in", "in", "in", "dangling", "out", "twin", "spanning", "edge"])
         n = rnd.choice([1, 2, 3, 4])
         tr = S.gen_trace(rnd, job=1 + t, name=1 + rnd.randrange(2), first_id=nid, n=n, dangling=(kind == "dangling"))
         for e in tr:
@@ -37,6 +37,12 @@ def gen_dataset(rnd, buf):
             else:
                 e["st"] = t0 + buf * MIN + rnd.randrange(0, extent - 2 * buf * MIN)
                 e["en"] = min(t0 + extent - buf * MIN, e["st"] + rnd.randrange(0, MIN))
+        if kind == "edge" and buf > 0:
+            # every span of the trace straddles the lower window bound: it ends (or starts) inside, none lies wholly inside
+            lo_b = t0 + buf * MIN
+            for e in tr:
+                e["st"] = lo_b - rnd.randrange(1, MIN // 4)
+                e["en"] = lo_b + rnd.randrange(0, MIN // 4)
         if kind == "spanning" and buf > 0 and len(tr) >= 1:
             # a long-running job: the root spans the whole retained window, no span starts or ends inside it
             for k, e in enumerate(tr):
